@@ -31,12 +31,34 @@ print(json.dumps({"Replace": m}, indent=1))
 PY
 }
 
+# gen_overlay_e2: the E2 overlay = base overlay + scheduler shim (virtual package under
+# $REPO/pkg/zzverif) + the files under exploration rewritten from the CURRENT working tree.
+gen_overlay_e2() {
+  mkdir -p "$BUILD/e2"
+  (cd "$VERIF/harness" && go build -o "$BUILD/vrewrite" ./cmd/vrewrite) || return 1
+  "$BUILD/vrewrite" "$REPO/engine/engine.go" "$BUILD/e2/engine.go" || { echo "rewriter failed on engine.go"; return 1; }
+  python3 - "$VERIF" "$REPO" "$BUILD" > "$BUILD/overlay_e2.json" <<'PY'
+import json, sys
+verif, repo, build = sys.argv[1:4]
+m = json.load(open(build + "/overlay.json"))["Replace"]
+shim = repo + "/pkg/zzverif/vsched/"
+for f in ("sched.go", "chan.go", "chan_generic.go"):
+    m[shim + f] = verif + "/hooks/e2/vsched/" + f + ".txt"
+m[shim + "vsync/vsync.go"] = verif + "/hooks/e2/vsched/vsync/vsync.go.txt"
+m[repo + "/engine/engine.go"] = build + "/e2/engine.go"
+m[repo + "/engine/zz_verif.go"] = verif + "/hooks/engine_zz_verif.go.txt"
+print(json.dumps({"Replace": m}, indent=1))
+PY
+}
+
 build_driver() {
   gen_overlay || return 1
   case "$1" in
     vx)
       (cd "$VERIF/harness" && go build -tags verif -overlay "$BUILD/overlay.json" -o "$BUILD/vx" ./cmd/vx) ;;
     vsx)
-      (cd "$VERIF/harness" && go build -tags verif -overlay "$BUILD/overlay.json" -o "$BUILD/vsx" ./cmd/vsx) ;;
+      gen_overlay_e2 || return 1
+      (cd "$VERIF/harness" && GODEBUG=goindex=0 go build -race -tags verif -overlay "$BUILD/overlay_e2.json" \
+         -gcflags='github.com/arr-ai/arrai/pkg/zzverif/...=-race=false -l' -o "$BUILD/vsx" ./cmd/vsx) ;;
   esac
 }
